@@ -304,6 +304,26 @@ def blocks_trace(run, scratch, n):
     run.evaluations += 3 * sum(len(e["qs"]) for e in events)
 
 
+def system_traces(run, scratch, programs, steps):
+    """random programs of API calls (several mappings, handles, files, interleaved iterators) replayed through System.tla"""
+    for k in range(programs):
+        name = f"Trace_System_{k}"
+        out = scratch.path(f"events-{name}.ndjson")
+        pgv(["trace", "system", out, "--seed", str(run.seed * 1000 + k), "--steps", str(steps)])
+        events = read_ndjson(out)
+        nload = len([e for e in events if e["t"] == "load"])
+        idx = next((i for i, e in enumerate(events) if e["t"] == "q" and e["q"]["t"] == "class"), None)
+        if idx is None:
+            continue
+
+        def corrupt(ev):
+            ev["got"] = [[99, 97, 110, 97, 114, 121]]
+            return ev
+        validate_stateful_trace(run, scratch, name, "Trace_System", events, nload, idx, corrupt,
+                                signature=lambda b: {"call": b.get("t")})
+        run.steps[-1]["calls"] = {t: len([e for e in events if e["t"] == t]) for t in ("mapper", "write", "parse", "q", "begin", "next")}
+
+
 COMMON_ASSUME = ["TLC (tla2tools 1.8.0) and its Json/IOUtils module overrides",
                  "harness event/answer encoding (enc.rs, handles.rs), checked by binding canaries",
                  "bounded alphabets in model-checked generation; seeded sampling in traces"]
@@ -371,6 +391,7 @@ def c02(run, scratch):
     retrace_trace(run, scratch, "Trace_Retrace_all", "all", 300 if t else 60, 300 if t else 150, SMALL_CORPUS,
                   workers=14 if t else 10)
     blocks_trace(run, scratch, 100000 if t else 150)
+    system_traces(run, scratch, 8 if t else 3, 600 if t else 400)
     # the remaining query kinds of the statement: text and typed stack traces, signatures (mapper = cache = spec)
     text_trace(run, scratch, "Trace_Text_all", "all", 60 if t else 15, 40, _c07_corrupt,
                lambda e: e["t"] == "text" and len(e["text"]) > 0, workers=14 if t else 10)
@@ -594,7 +615,16 @@ def c11(run, scratch):
                 workers=14 if t else 10, timeout=3000)
     if r.violation:
         run.violation("MC_CacheParse", {"signature": {"step": "MC_CacheParse"}, "tlc": r.violation, "output": r.out[-4000:]})
-    run.add_tlc("MC_CacheParse", r, note="every strict prefix of every file shape rejected; header edits give the stated kinds")
+    run.add_tlc("MC_CacheParse", r, note="every strict prefix of every file shape rejected; header edits give the stated kinds; "
+                                         "byte-level rule = integer rule CacheLayout!Accepts")
+    # the same two statements for ALL sizes: TLAPS proofs over the integer rule
+    from .core import run_tlapm
+    proved, total, out, wall = run_tlapm(scratch, "CacheLayoutProofs")
+    run.steps.append({"step": "TLAPS CacheLayoutProofs", "obligations": total, "discharged": proved, "wall_s": round(wall, 2),
+                      "theorems": ["Torn: len < Total => ~Accepts", "Complete: Accepts(Total)", "Aligned: Align(n) % 8 = 0"]})
+    if proved != total:
+        # proofs are about the specification only: a failure cannot be caused by a change to /repo
+        raise ToolError("TLAPS: unproved obligations in CacheLayoutProofs\n" + out[-2000:])
     r = run_tlc(scratch, "MC_CacheIO", cfg="MC_CacheIO_general.cfg", workers=8, timeout=900)
     if r.violation:
         run.violation("MC_CacheIO_general", {"signature": {"step": "MC_CacheIO_general"}, "tlc": r.violation, "output": r.out[-4000:]})
@@ -627,6 +657,8 @@ def c14(run, scratch):
                 "cache_len": len(ev[0]["copies"][0])})
     r = run_tlc(scratch, "MC_CacheParse", cfg="MC_CacheParse.cfg", workers=8, timeout=900)
     run.add_tlc("MC_CacheParse", r, note="implied length arithmetic")
+    # histories of whole programs: every write of one mapping gives the same bytes whatever happened in between
+    system_traces(run, scratch, 6 if t else 2, 600 if t else 400)
     run.exhaustive = False
     run.assumptions += COMMON_ASSUME + ["hash seeds differ between processes (std RandomState); in-process repeats and 4 threads per mapping"]
 
